@@ -264,7 +264,7 @@ Definition oer_open_cget (t : ty) (bs : list Z) : option (val * list Z) :=
   end.
 
 (* Rt/Ext.v:ext_oer_dec with the component decoder [oer_cdec] *)
-Definition ext_oer_cdec (std : bool) (t : ety) (bs : list Z) : option (eval * list Z) :=
+Definition ext_oer_cdec (t : ety) (bs : list Z) : option (eval * list Z) :=
   match t with
   | ESeq _ root adds =>
       let nopt := length (filter is_opt root) in
@@ -284,7 +284,7 @@ Definition ext_oer_cdec (std : bool) (t : ety) (bs : list Z) : option (eval * li
                             else
                               match take_bits (Z.to_nat (8 * zlen bmo - unused)) (bytes_bits bmo) with
                               | Some (bm, _) =>
-                                  match dec_additions oer_open_cget (oer_open_skip std) adds bm r3 with
+                                  match dec_additions oer_open_cget oer_open_skip adds bm r3 with
                                   | Some (avs, r4) => Some (EVSeq rvs avs, r4)
                                   | None => None
                                   end
@@ -319,8 +319,8 @@ Definition ext_oer_cdec (std : bool) (t : ety) (bs : list Z) : option (eval * li
       end
   end.
 
-Definition ext_oer_cdecode (std : bool) (t : ety) (bs : list Z) : option (eval * Z) :=
-  match ext_oer_cdec std t bs with
+Definition ext_oer_cdecode (t : ety) (bs : list Z) : option (eval * Z) :=
+  match ext_oer_cdec t bs with
   | Some (v, rest) => Some (v, zlen bs - zlen rest)
   | None => None
   end.
